@@ -23,7 +23,7 @@ META = {
         "ptera.overlay.autotool/_tooler/fits_selector", "ptera.probe.Probe._enter/_install_tooling",
     ],
     "bounds": {"quick": {"slots": "slot 1: 26 forms x 3 names; slot 2: 10 forms x 2 names; optional extra read", "probed_identifiers": 8},
-               "thorough": {"slots": "3 free slots x 26 forms x 3 names", "probed_identifiers": 8}},
+               "thorough": {"slots": "2 free slots x 27 forms x 3 names + optional extra read of any name", "probed_identifiers": 8}},
     "out_of_scope": ["names that occur only inside nested scopes of f (lambda parameters, comprehension variables, locals of nested "
                      "functions): Python does not report them for f and they are not fresh either -- not asserted",
                      "programs outside the slot grammar"],
@@ -247,7 +247,7 @@ def cases(tier, seed):
     cs = [{"id": "nonfunction", "params": {"kind": "nonfunction"}, "budget_s": 60},
           {"id": "nonfunction:twin", "params": {"kind": "nonfunction"}, "vacuity_twin": True, "stop_on_refute": True, "budget_s": 60}]
     for f0 in range(len(FORMS)):
-        cs.append({"id": f"slots:first={f0}", "params": {"kind": "slots", "slots": 3 if th else 2, "f0": f0, "small": not th},
+        cs.append({"id": f"slots:first={f0}", "params": {"kind": "slots", "slots": 2, "f0": f0, "small": not th},
                    "budget_s": 8000 if th else 280})
     cs.append({"id": "slots:twin", "params": {"kind": "slots", "slots": 2, "f0": 6}, "vacuity_twin": True, "stop_on_refute": True,
                "budget_s": 60})
